@@ -159,6 +159,17 @@ class Repo:
     def __getitem__(self, name) -> Module:
         return self.modules[name]
 
+    def digest(self) -> str:
+        """Identity of the analysed source text (memo key for interpretation results)."""
+        if getattr(self, "_digest", None) is None:
+            import hashlib
+            h = hashlib.sha256()
+            for name in sorted(self.modules):
+                h.update(name.encode())
+                h.update(self.modules[name].src.encode())
+            self._digest = h.hexdigest()
+        return self._digest
+
     def resolve_module(self, dotted: str) -> Optional[Module]:
         if dotted.startswith("picosvg."):
             return self.modules.get(dotted.split(".", 1)[1])
